@@ -64,8 +64,10 @@ def _random_records(ctx, count, nmax):
             n = int(rng.randint(5, 60))           # (the single-precision mean records below)
         nid = int(rng.choice([2, 5, 40, 300]))
         pool = np.sort(rng.choice(np.arange(0, 2 * nid + 5), size=nid, replace=False))
-        v = as_list(pool[rng.randint(0, nid, size=n)])
         dtype = DTYPES[rid % 4]
+        if rid % 8 == 2:
+            pool[-1] = 65535                  # uint16 vectors whose largest id is the largest uint16
+        v = as_list(pool[rng.randint(0, nid, size=n)])
         with_ids = bool(rid % 3 == 0)
         ids = as_list(np.cumsum(rng.randint(1, 4, size=n))) if with_ids else list(range(n))
         if rid % 4 == 0:
@@ -74,6 +76,8 @@ def _random_records(ctx, count, nmax):
             req = as_list(rng.permutation(cand)[:int(rng.randint(10, min(len(cand), 60) + 1))])
         else:
             req = as_list(rng.permutation(np.r_[pool[:6], [2 * nid + 7]])[:int(rng.randint(0, 6))])
+        if rid % 8 == 6 and len(v):
+            req = req + [65536 + int(v[0])]   # uint16 vectors: an absent id that does not fit the dtype of the vector
         lookup = as_list(rng.permutation(np.unique(np.r_[v, pool[:3]])))
         w = as_list(rng.randint(-20, 20, size=n))
         vv = np.asarray(v, dtype=dtype)
